@@ -247,9 +247,11 @@ def plan_C14(tier, seed):
                ["Deterministic", "Pure", "Emit"], workers=4)
     ev = eval_jobs("c14", [("F3", 2), ("F5", 1), ("U1", 1)], "2020") + eval_jobs("c14", [("G2", 2), ("G5", 1)], "d7")
     rs = res_jobs("c14", [("R2", 1)])
+    lit = [cod_job("c14", "PO", 2, ["OrderRefines"]), cod_job("c14", "RT", 1, ["RoundTripKeepsMeaning"])]
     return dict(
-        tlc=[life] + ev + rs, parallel=4,
+        tlc=[life] + ev + rs + lit, parallel=4,
         replay=[dict(name="c14_history", family="history", inputs=[life["name"]]),
+                dict(name="c14_literals", family="purelit", inputs=[j["name"] for j in lit], processes=2),
                 dict(name="c14_pure", family="pure", inputs=[j["name"] for j in ev + rs],
                      processes=2 if tier == "quick" else 4)],
         rule="(a) Lifecycle.tla: all histories of Resolve/Validate/Marshal calls of length 3 (thorough 4) over a draft-07 root, "
@@ -258,7 +260,9 @@ def plan_C14(tier, seed):
              "call). (b) the universes of the map-heavy evaluator families (F3, F5, U1, G2, G5) and of the Loader family R2 "
              "replayed with snapshots of schema, Loader documents and instance around every call, each Resolve done twice, "
              "each Validate three times, Marshal before/after, and the whole replay repeated in 2 (thorough 4) fresh "
-             "processes whose digests of verdict vectors and bytes must be identical. Non-trivial = history longer than one "
+             "processes whose digests of verdict vectors and bytes must be identical. (c) Schema LITERALS of the codec families (every "
+             "field state; all PropertyOrder lists incl. stale names, built with spare slice capacity): Marshal x4 and Resolve "
+             "must leave the deep fingerprint unchanged and agree byte for byte, also across processes. Non-trivial = history longer than one "
              "call / discriminating verdict vector.",
         exhaustive=True, assumptions=["TLC", "harness deep fingerprint (reflection) of Schema trees and instances"])
 
